@@ -861,4 +861,395 @@ theorem sample_total_aux : ∀ w : Wf, wf w = true → ∀ (ch : Chan) (t : Rat)
     simp only [sample]
     exact ih hw ch (duration i - t) hch (by grind) (by grind)
 
+
+/-! ### dictionaries -/
+
+theorem mem_dinsert {α} (c : Chan) (v : α) : ∀ (l : List (Chan × α)) (kx : Chan × α),
+    kx ∈ dinsert c v l → kx = (c, v) ∨ kx ∈ l := by
+  intro l
+  induction l with
+  | nil => intro kx h; simp [dinsert] at h; exact Or.inl h
+  | cons y ys ih =>
+    intro kx h
+    obtain ⟨k, x⟩ := y
+    simp only [dinsert] at h
+    split at h
+    · rename_i hck; subst hck
+      simp at h; rcases h with h | h
+      · exact Or.inl h
+      · exact Or.inr (by simp [h])
+    · simp at h; rcases h with h | h
+      · exact Or.inr (by simp [h])
+      · rcases ih kx h with h' | h'
+        · exact Or.inl h'
+        · exact Or.inr (by simp [h'])
+
+theorem keys_dinsert {α} (c : Chan) (v : α) : ∀ (l : List (Chan × α)) (k : Chan),
+    k ∈ dkeys (dinsert c v l) ↔ k = c ∨ k ∈ dkeys l := by
+  intro l
+  induction l with
+  | nil => intro k; simp [dinsert, dkeys]
+  | cons y ys ih =>
+    intro k
+    obtain ⟨k0, x⟩ := y
+    simp only [dinsert]
+    split
+    · rename_i hck; subst hck; simp [dkeys]
+    · have := ih k
+      simp only [dkeys, List.map_cons, List.mem_cons] at this ⊢
+      rw [this]
+      constructor
+      · rintro (h | h | h)
+        · exact Or.inr (Or.inl h)
+        · exact Or.inl h
+        · exact Or.inr (Or.inr h)
+      · rintro (h | h | h)
+        · exact Or.inr (Or.inl h)
+        · exact Or.inl h
+        · exact Or.inr (Or.inr h)
+
+theorem mem_dupdate {α} : ∀ (e d : List (Chan × α)) (kx : Chan × α), kx ∈ dupdate d e → kx ∈ d ∨ kx ∈ e := by
+  intro e
+  induction e with
+  | nil => intro d kx h; simp [dupdate] at h; exact Or.inl h
+  | cons y ys ih =>
+    intro d kx h
+    simp only [dupdate, List.foldl] at h
+    have := ih (dinsert y.1 y.2 d) kx (by simpa [dupdate] using h)
+    rcases this with h1 | h1
+    · rcases mem_dinsert _ _ _ _ h1 with h2 | h2
+      · exact Or.inr (by simp [h2])
+      · exact Or.inl h2
+    · exact Or.inr (by simp [h1])
+
+theorem keys_dupdate {α} : ∀ (e d : List (Chan × α)) (k : Chan),
+    k ∈ dkeys (dupdate d e) ↔ k ∈ dkeys d ∨ k ∈ dkeys e := by
+  intro e
+  induction e with
+  | nil => intro d k; simp [dupdate, dkeys]
+  | cons y ys ih =>
+    intro d k
+    have := ih (dinsert y.1 y.2 d) k
+    simp only [dupdate, List.foldl] at this ⊢
+    rw [this, keys_dinsert]
+    simp only [dkeys, List.map_cons, List.mem_cons]
+    constructor
+    · rintro ((h | h) | h)
+      · exact Or.inr (Or.inl h)
+      · exact Or.inl h
+      · exact Or.inr (Or.inr h)
+    · rintro (h | h | h)
+      · exact Or.inl (Or.inr h)
+      · exact Or.inl (Or.inl h)
+      · exact Or.inr h
+
+theorem mem_keys {α} (d : List (Chan × α)) (k : Chan) (x : α) (h : (k, x) ∈ d) : k ∈ dkeys d := by
+  simp only [dkeys, List.mem_map]
+  exact ⟨(k, x), h, rfl⟩
+
+theorem keys_mem {α} (d : List (Chan × α)) (k : Chan) (h : k ∈ dkeys d) : ∃ x, (k, x) ∈ d := by
+  simp only [dkeys, List.mem_map] at h
+  obtain ⟨⟨k', x⟩, hm, rfl⟩ := h
+  exact ⟨x, hm⟩
+
+
+/-! ### `constant_value_dict` agrees with `constant_value` -/
+
+theorem disjointGo_acc : ∀ (ws : List Wf) (acc : List Chan), disjointGo acc ws = true →
+    ∀ w ∈ ws, ∀ k, k ∈ channels w → k ∉ acc := by
+  intro ws
+  induction ws with
+  | nil => intro acc _ w hw; cases hw
+  | cons y ys ih =>
+    intro acc h w hw k hk
+    simp only [disjointGo, Bool.and_eq_true] at h
+    cases hw with
+    | head =>
+      intro hacc
+      have : k ∈ inter (channels y) acc := by simp [hk, hacc]
+      have he : inter (channels y) acc = [] := by simpa using h.1
+      rw [he] at this; cases this
+    | tail _ hm =>
+      have := ih _ h.2 w hm k hk
+      intro hacc
+      exact this (by simp [hacc])
+
+theorem disjoint_first : ∀ (ws : List Wf) (acc : List Chan), disjointGo acc ws = true →
+    ∀ w ∈ ws, ∀ k, k ∈ channels w →
+    cvMulti ws k = constantValue w k ∧ ∀ t, sampleMulti ws k t = sample w k t := by
+  intro ws
+  induction ws with
+  | nil => intro acc _ w hw; cases hw
+  | cons y ys ih =>
+    intro acc h w hw k hk
+    simp only [disjointGo, Bool.and_eq_true] at h
+    cases hw with
+    | head => simp [cvMulti, sampleMulti, hk]
+    | tail _ hm =>
+      have hny : k ∉ channels y := by
+        intro hy
+        exact disjointGo_acc ys _ h.2 w hm k hk (by simp [hy])
+      have := ih _ h.2 w hm k hk
+      simp [cvMulti, sampleMulti, hny, this]
+
+theorem mem_chanUnion : ∀ (ws : List Wf) (k : Chan), k ∈ chanUnion ws ↔ ∃ w ∈ ws, k ∈ channels w := by
+  intro ws
+  induction ws with
+  | nil => intro k; simp [chanUnion]
+  | cons y ys ih => intro k; simp [chanUnion, ih]
+
+theorem cvd_sound : ∀ w : Wf, wf w = true → ∀ d, constantValueDict w = some d →
+    (∀ k x, (k, x) ∈ d → k ∈ channels w ∧ constantValue w k = some x) ∧
+    (∀ k, k ∈ channels w → k ∈ dkeys d) := by
+  intro w
+  induction w using Wf.induct with
+  | table ch es => intro _ d h; simp [constantValueDict] at h
+  | const dur a ch =>
+    intro _ d h
+    simp [constantValueDict] at h
+    subst h
+    simp [channels, constantValue, dkeys]
+  | func s i dur ch => intro _ d h; simp [constantValueDict] at h
+  | seq ws ih => intro _ d h; simp [constantValueDict] at h
+  | multi ws ih =>
+    intro hw d h
+    simp [wf] at hw
+    simp only [constantValueDict] at h
+    have hdis := hw.2
+    have hwl := wfL_mem hw.1.1.2
+    -- list statement
+    have key : ∀ (l : List Wf), (∀ w ∈ l, w ∈ ws) → ∀ d, cvdMulti l = some d →
+        (∀ k x, (k, x) ∈ d → ∃ w ∈ l, k ∈ channels w ∧ constantValue w k = some x) ∧
+        (∀ k, k ∈ chanUnion l → k ∈ dkeys d) := by
+      intro l
+      induction l with
+      | nil => intro _ d h; simp [cvdMulti] at h; subst h; simp [chanUnion]
+      | cons y ys ihl =>
+        intro hsub d h
+        simp only [cvdMulti] at h
+        cases hy : constantValueDict y with
+        | none => simp [hy] at h
+        | some dy =>
+          cases hys : cvdMulti ys with
+          | none => simp [hy, hys] at h
+          | some dr =>
+            simp [hy, hys] at h
+            subst h
+            have hyws : y ∈ ws := hsub y (by simp)
+            obtain ⟨a1, a2⟩ := ih y hyws (hwl y hyws) dy hy
+            obtain ⟨b1, b2⟩ := ihl (fun w hw => hsub w (by simp [hw])) dr hys
+            constructor
+            · intro k x hkx
+              rcases mem_dupdate _ _ _ hkx with h1 | h1
+              · exact ⟨y, by simp, a1 k x h1⟩
+              · obtain ⟨w, hw, hh⟩ := b1 k x h1
+                exact ⟨w, by simp [hw], hh⟩
+            · intro k hk
+              simp only [chanUnion, mem_union] at hk
+              rw [keys_dupdate]
+              rcases hk with h1 | h1
+              · exact Or.inl (a2 k h1)
+              · exact Or.inr (b2 k h1)
+    obtain ⟨k1, k2⟩ := key ws (fun w hw => hw) d h
+    constructor
+    · intro k x hkx
+      obtain ⟨w, hw, hk, hc⟩ := k1 k x hkx
+      refine ⟨by simp only [channels]; exact (mem_chanUnion ws k).mpr ⟨w, hw, hk⟩, ?_⟩
+      simp only [constantValue]
+      rw [(disjoint_first ws [] hdis w hw k hk).1, hc]
+    · intro k hk; exact k2 k (by simpa [channels] using hk)
+  | rep b n ih =>
+    intro hw d h
+    simp [wf] at hw
+    simp only [constantValueDict] at h
+    simpa [channels, constantValue] using ih hw.1 d h
+  | trans i tr ih => intro _ d h; simp [constantValueDict] at h
+  | subset i cs ih =>
+    intro hw d h
+    simp [wf] at hw
+    simp only [constantValueDict] at h
+    cases hi : constantValueDict i with
+    | none => simp [hi] at h
+    | some di =>
+      simp only [hi] at h
+      obtain ⟨a1, _⟩ := ih hw.1 di hi
+      have key : ∀ (l : List Chan) (d : List (Chan × Rat)),
+          l.foldr (fun c acc => match acc, di.lookup c with
+            | some l, some v => some (dinsert c v l)
+            | _, _ => none) (some []) = some d →
+          (∀ k x, (k, x) ∈ d → k ∈ l ∧ (k, x) ∈ di) ∧ (∀ k, k ∈ l → k ∈ dkeys d) := by
+        intro l
+        induction l with
+        | nil => intro d h; simp at h; subst h; simp
+        | cons c cs' ihl =>
+          intro d h
+          simp only [List.foldr] at h
+          cases hacc : cs'.foldr (fun c acc => match acc, di.lookup c with
+            | some l, some v => some (dinsert c v l)
+            | _, _ => none) (some []) with
+          | none => simp [hacc] at h
+          | some l' =>
+            cases hl : di.lookup c with
+            | none => simp [hacc, hl] at h
+            | some v =>
+              simp [hacc, hl] at h
+              subst h
+              obtain ⟨b1, b2⟩ := ihl l' hacc
+              constructor
+              · intro k x hkx
+                rcases mem_dinsert _ _ _ _ hkx with h1 | h1
+                · cases h1; exact ⟨by simp, lookup_mem di c v hl⟩
+                · obtain ⟨m1, m2⟩ := b1 k x h1
+                  exact ⟨by simp [m1], m2⟩
+              · intro k hk
+                rw [keys_dinsert]
+                cases hk with
+                | head => exact Or.inl rfl
+                | tail _ hm => exact Or.inr (b2 k hm)
+      obtain ⟨k1, k2⟩ := key cs d h
+      constructor
+      · intro k x hkx
+        obtain ⟨m1, m2⟩ := k1 k x hkx
+        refine ⟨by simpa [channels] using m1, ?_⟩
+        simp only [constantValue, m1, if_true]
+        exact (a1 k x m2).2
+      · intro k hk; exact k2 k (by simpa [channels] using hk)
+  | arith l op r ihl ihr => intro _ d h; simp [constantValueDict] at h
+  | functor i fs ih => intro _ d h; simp [constantValueDict] at h
+  | reversed i ih =>
+    intro _ d h
+    simp only [constantValueDict] at h
+    by_cases he : channels i = []
+    · simp [he] at h; subst h; simp [channels, he]
+    · simp [he] at h
+
+/-- the dictionary reports the sample values -/
+theorem cvd_sample (w : Wf) (hw : wf w = true) (d : List (Chan × Rat)) (h : constantValueDict w = some d)
+    (k : Chan) (x : Rat) (hk : (k, x) ∈ d) (t : Rat) (h0 : 0 ≤ t) (hle : t ≤ duration w) :
+    sample w k t = some x := by
+  obtain ⟨a, _⟩ := cvd_sound w hw d h
+  exact constant_sound_aux w hw k x t (a k x hk).1 (a k x hk).2 h0 hle
+
+
+/-! ### `ConstantWaveform.from_mapping` -/
+
+theorem mem_insertByKey (w : Wf) : ∀ (l : List Wf) (x : Wf), x ∈ insertByKey w l ↔ x = w ∨ x ∈ l := by
+  intro l
+  induction l with
+  | nil => intro x; simp [insertByKey]
+  | cons y ys ih =>
+    intro x
+    simp only [insertByKey]
+    split
+    · simp only [List.mem_cons, ih]
+      constructor
+      · rintro (h | h | h)
+        · exact Or.inr (Or.inl h)
+        · exact Or.inl h
+        · exact Or.inr (Or.inr h)
+      · rintro (h | h | h)
+        · exact Or.inr (Or.inl h)
+        · exact Or.inl h
+        · exact Or.inr (Or.inr h)
+    · simp
+
+theorem mem_sortByChannels : ∀ (l : List Wf) (x : Wf), x ∈ sortByChannels l ↔ x ∈ l := by
+  intro l
+  induction l with
+  | nil => intro x; simp [sortByChannels]
+  | cons y ys ih =>
+    intro x
+    simp only [sortByChannels, List.foldr] at ih ⊢
+    rw [mem_insertByKey, ih]
+    simp
+
+/-- `d` assigns at most one value to a channel -/
+def Functional (d : List (Chan × Rat)) : Prop := ∀ k x y, (k, x) ∈ d → (k, y) ∈ d → x = y
+
+theorem sampleMulti_consts (dur : Rat) (d : List (Chan × Rat)) (hf : Functional d) (k : Chan) (x : Rat)
+    (hk : (k, x) ∈ d) (t : Rat) : ∀ (L : List Wf),
+    (∀ w ∈ L, ∃ c a, w = .const dur a c ∧ (c, a) ∈ d) → (∃ w ∈ L, k ∈ channels w) →
+    sampleMulti L k t = some x := by
+  intro L
+  induction L with
+  | nil => intro _ h; obtain ⟨w, hw, _⟩ := h; cases hw
+  | cons y ys ih =>
+    intro hall hex
+    obtain ⟨c, a, hy, hca⟩ := hall y (by simp)
+    simp only [sampleMulti]
+    by_cases hm : k ∈ channels y
+    · simp only [hm, if_true]
+      subst hy
+      simp [channels] at hm
+      subst hm
+      simp [sample, hf k a x hca hk]
+    · simp only [hm, if_false]
+      apply ih (fun w hw => hall w (by simp [hw]))
+      obtain ⟨w, hw, hkw⟩ := hex
+      cases hw with
+      | head => exact absurd hkw hm
+      | tail _ h => exact ⟨w, h, hkw⟩
+
+theorem fromMapping_sound (dur : Rat) (d : List (Chan × Rat)) (s : Wf) (h : fromMapping dur d = .ok s)
+    (hf : Functional d) :
+    duration s = dur ∧ (∀ k, k ∈ channels s ↔ k ∈ dkeys d) ∧
+    ∀ k x, (k, x) ∈ d → ∀ t, sample s k t = some x := by
+  match d, h with
+  | [(c, a)], h =>
+    simp [fromMapping] at h
+    subst h
+    refine ⟨by simp [duration], by simp [channels, dkeys], ?_⟩
+    intro k x hk t
+    simp at hk
+    simp [sample, hk.2]
+  | kv1 :: kv2 :: rest, h =>
+    simp only [fromMapping, mkMulti] at h
+    split at h
+    · cases h
+    · split at h
+      · cases h
+      · split at h
+        · cases h
+        · injection h with h
+          subst h
+          generalize hd : (kv1 :: kv2 :: rest) = d at *
+          have hall : ∀ w ∈ sortByChannels (d.map (fun ca => Wf.const dur ca.2 ca.1)),
+              ∃ c a, w = .const dur a c ∧ (c, a) ∈ d := by
+            intro w hw
+            rw [mem_sortByChannels] at hw
+            simp only [List.mem_map] at hw
+            obtain ⟨⟨c, a⟩, hm, rfl⟩ := hw
+            exact ⟨c, a, rfl, hm⟩
+          have hchan : ∀ k, k ∈ chanUnion (sortByChannels (d.map (fun ca => Wf.const dur ca.2 ca.1))) ↔
+              k ∈ dkeys d := by
+            intro k
+            rw [mem_chanUnion]
+            constructor
+            · rintro ⟨w, hw, hk⟩
+              obtain ⟨c, a, rfl, hca⟩ := hall w hw
+              simp [channels] at hk
+              subst hk
+              exact mem_keys d k a hca
+            · intro hk
+              obtain ⟨x, hx⟩ := keys_mem d k hk
+              refine ⟨.const dur x k, ?_, by simp [channels]⟩
+              rw [mem_sortByChannels]
+              simp only [List.mem_map]
+              exact ⟨(k, x), hx, rfl⟩
+          refine ⟨?_, by simpa [channels] using hchan, ?_⟩
+          · simp only [duration]
+            cases hs : sortByChannels (d.map (fun ca => Wf.const dur ca.2 ca.1)) with
+            | nil =>
+              have : Wf.const dur kv1.2 kv1.1 ∈ sortByChannels (d.map (fun ca => Wf.const dur ca.2 ca.1)) := by
+                rw [mem_sortByChannels, ← hd]; simp
+              rw [hs] at this; cases this
+            | cons y ys =>
+              obtain ⟨c, a, hy, _⟩ := hall y (by rw [hs]; simp)
+              simp [durHead, hy, duration]
+          · intro k x hk t
+            simp only [sample]
+            apply sampleMulti_consts dur d hf k x hk t _ hall
+            have := (hchan k).mpr (mem_keys d k x hk)
+            exact (mem_chanUnion _ k).mp this
+
 end QP.C08
